@@ -20,6 +20,19 @@ def population(rng, quick):
         pop.append((sum([["a", "a*", "+"] for _ in range(k)], [])[:-1], list("+".join([".."] * k))))
         pop.append((sum([["a", "b", "+"] for _ in range(k)], [])[:-1], list("+".join(["()"] * k))))
         pop.append((sum([["a", "+"] for _ in range(k)], [])[:-1], list("+".join(["."] * k))))
+    # names whose concatenations collide ('a'+'ab' = 'aa'+'b'), whose string and numeric orders differ, and characters
+    # around '*' in the code-point order; strands with identical content under structures that are not symmetric
+    import loops_common as lc
+    for s in rng.sample(structs, min(len(structs), 150 if quick else 1500)):
+        pop.append((gs.seq_for(rng, s, names=("a", "aa", "ab", "b", "aab", "B", "a_", "a-"), complementary=rng.random() < 0.3), list(s)))
+        pop.append((gs.seq_for(rng, s, names=("d1", "d10", "d2", "d9", "1", "10", "9")), list(s)))
+        if s.count("+") >= 1:
+            pop.append((lc.periodic_seq(s), list(s)))
+            pop.append((lc.periodic_seq(s, unit=("a", "a", "a", "a", "a", "a")), list(s)))
+    for k in (10, 11, 13):                     # more than nine strands
+        s = "+".join(["(."] + [".."] * (k - 2) + [".)"])
+        pop.append((gs.seq_for(rng, s, names=("a", "b")), list(s)))
+        pop.append((lc.periodic_seq(s), list(s)))
     pop.append((["a", "+", "a*", "+", "a", "+", "a*"], list("(+)+(+)")))
     pop.append((["a", "+", "a*", "+", "a", "+", "a*"], list("(+(+)+)")))
     for _ in range(40 if quick else 600):
